@@ -17,18 +17,28 @@ LETTERS = ["wh", "pp", "sh", "th", "foreign", "trunc", "flip", "unknown", "badna
 FAMILY = {"wh": ["MINI", "TOUCH", "V2_ESP", "V2_QCA", "V4"], "pp": ["POWER_PLUG"], "sh": ["RUNNER", "RUNNER_MINI"], "th": ["BREEZE"]}
 
 
+IDS = [bytes([0xa0 + k] * 3) for k in range(3)]
+
+
 def make_event(rnd, letter, port, seq):
     """-> (datagram, expected rendering or None)"""
     fam = letter if letter in FAMILY else rnd.choice(list(FAMILY))
     desc = c05.rand_desc(rnd, rnd.choice(FAMILY[fam]))
+    desc[2] = rnd.choice(IDS)                      # few device ids: foreign, flipped and unknown-model datagrams reuse the id of valid ones
     desc[4] = ("p%d-%d" % (port, seq)).encode()
     d, exp = c05.encode([c05.mk_case(rnd, desc)])[0]
     if letter in FAMILY: return d, exp
     x = bytearray(d)
     if letter == "foreign": return world.rand_bytes(rnd, rnd.choice([0, 1, 40, 165, 168, 300])), None if True else None
-    if letter == "trunc": return bytes(x[:rnd.randrange(len(x))]), None
+    if letter == "trunc":
+        n = rnd.randrange(len(x))
+        while n in (159, 165, 168): n = rnd.randrange(len(x))      # a 168- or 165-byte broadcast cut to another accepted length is not "truncated": it passes the gate
+        return bytes(x[:n]), None
     if letter == "flip": x[rnd.randrange(2)] ^= 1 << rnd.randrange(8); return bytes(x), None
-    if letter == "unknown": x[74:76] = b"\xee\xee"; return bytes(x), None
+    if letter == "unknown":
+        if rnd.random() < .5: x[74:76] = b"\xee\xee"
+        else: x[75] ^= 1 << rnd.randrange(8); x[74:76] = bytes(x[74:76]) if bytes(x[74:76]) not in c06.known_codes() else b"\xee\x01"
+        return bytes(x), None
     if letter == "badname": x[42] = 0xff; return bytes(x), None
     if letter == "badtime":
         x[74:76] = bytes.fromhex("030f"); x = x[:165] + bytearray(165 - len(x[:165])); x[133] = 1; x[155:159] = b"\xff\xff\xff\x7f"; return bytes(x), None
